@@ -309,12 +309,19 @@ def main():
     if r.returncode:
         print("GLUE-DIFF-SKIP: %s: the generated files do not build: %s" % (name, r.stdout[-300:].replace("\n", " ")))
         return
+    # own process group: on a timeout `lake env` would die alone and leave its `lean --run` child spinning for hours
+    import signal
+    pr = subprocess.Popen(["lake", "env", "lean", "--run", run], cwd=lean, stdout=subprocess.PIPE, stderr=subprocess.STDOUT, text=True,
+                          start_new_session=True)
     try:
-        r = subprocess.run(["lake", "env", "lean", "--run", run], cwd=lean, stdout=subprocess.PIPE, stderr=subprocess.STDOUT, text=True, timeout=maxs)
-        out = r.stdout
-    except subprocess.TimeoutExpired as e:
-        out = (e.stdout or b"").decode() if isinstance(e.stdout, bytes) else (e.stdout or "")
-        out += "\nGLUE-DIFF-SKIP: %s: search stopped after %d s" % (name, maxs)
+        out, _ = pr.communicate(timeout=maxs)
+    except subprocess.TimeoutExpired:
+        try:
+            os.killpg(pr.pid, signal.SIGKILL)
+        except OSError:
+            pass
+        out, _ = pr.communicate()
+        out = (out or "") + "\nGLUE-DIFF-SKIP: %s: search stopped after %d s" % (name, maxs)
     for l in out.split("\n"):
         if l.startswith("GLUE-DIFF"):
             print(l[:900])
